@@ -1,4 +1,4 @@
-CONSTANTS Prods = {1, 2, 3} InCap = 2
+CONSTANTS Prods = {1, 2, 3} InCap = 2 CbBudget = 1
 SPECIFICATION Spec
 INVARIANT Serial NoLostRedraw FullKept OneFinal FirstReturnWins FifoPerProducer HandledOnce
 PROPERTY NothingAfterFinal EventuallyRedrawn
